@@ -351,7 +351,8 @@ class kLeastAbsErrorsCycles(walkmodel.AbstractWalkModelDiGraph):
         non_empty_walks = []
         non_empty_weights = []
         for walk, weight in zip(solution["walks"], solution["weights"]):
-            if len(walk) > 1:
+            # In node mode a single-node walk is a real walk (it traverses that node); only in edge mode it is empty
+            if len(walk) > (0 if self.flow_attr_origin == "node" else 1):
                 non_empty_walks.append(walk)
                 non_empty_weights.append(weight)
 
